@@ -224,6 +224,7 @@ def run(ctx, tier, seed, shard, nshards):
     core.run_hypothesis(test, seed, n)
     if shard == 0:
         directed(ctx)
+        scope_cases(ctx)
 
 
 def directed(ctx, only=None):
@@ -234,6 +235,10 @@ def directed(ctx, only=None):
     sides = [{"q": 3}, {"xs": [], "n": 0, "t": [], "d": {}, "o": {"n": 1, "items": [], "child": None}, "x": 0, "q": 0}]
     extra = [("all(y > 1 for y in xs if y != 5 if 10 // (y - 5) < 100)", {"xs": [7, 5, 0]}),
              ("add(*xs) > 1000", {}),
+             # all() over elements that are judged by their truth value (not bools themselves), inside a larger condition
+             ("all(y for y in xs) and len(xs) > 1000", {"xs": [1, 0, 2]}), ("all(y - 5 for y in xs) and len(xs) > 0", {"xs": [1, 5, 2]}),
+             ("all(c.strip() for c in [s, CS]) and x > 0", {"s": "  "}), ("not all(y for y in xs) and len(xs) > 1000", {"xs": [1, 0]}),
+             ("(all(y for y in xs) or x > 1000) and all(ident(y) for y in ys)", {"xs": [0], "ys": [3, 0]}),
              # an unknown (None-bound) value inside a mapping unpacked into a call (finding D32)
              ("kw(**{'a': len([*xs, id]), 'b': n}) > 1000", {"id": None}), ("kw(**{'a': ident(id) or 1}) > 1000", {"id": None}),
              ("((m @ m)[0, 1] + x) > 1000", {}), ("x > 1000 or ((m @ (m))[1, 1] > 1000)", {}),
@@ -269,5 +274,129 @@ def directed(ctx, only=None):
                              "layout": {"kind": kind, "nest": "func", "above": [], "below": []}})
 
 
+SCOPE_SRC = """import icontract
+
+
+def make_late(deco, is_async):
+    # `late` is a local of this function that is bound only when bind() is called: until then its cell is empty, and a
+    # condition that Python evaluates without reaching `late` is simply violated
+    if is_async:
+        @deco(lambda x{res}: x > 0 and late(x), 'positive and late')
+        async def f(x):
+            return x
+    else:
+        @deco(lambda x{res}: x > 0 and late(x), 'positive and late')
+        def f(x):
+            return x
+
+    def bind():
+        nonlocal late
+        late = lambda x: True
+
+    if is_async is None:
+        late = None  # never executed: makes `late` a local of this function
+
+    return f, bind
+
+
+class Account:
+    # conditions inside a class body see private attributes under their mangled names
+    def __init__(self, open_, limit):
+        self.__open = open_
+        self.__limit = limit
+        self.public = 7
+
+    @icontract.require(lambda self, x: self.__open and x < self.__limit, 'open and below the limit')
+    def pay(self, x):
+        return x
+
+    @icontract.ensure(lambda self, result: result < self.__limit and self.__open, 'result below the limit')
+    def quote(self, x):
+        return x
+
+    @icontract.require(lambda self, x: self.__open and x < self.__limit, 'open and below the limit')
+    async def apay(self, x):
+        return x
+
+    class Inner:
+        def __init__(self, n):
+            self.__n = n
+
+        @icontract.require(lambda self: self.__n > 0, 'inner positive')
+        def m(self):
+            return self.__n
+"""
+
+
+def scope_cases(ctx, only=None):
+    """Conditions whose names mean something only where they were written: a closure variable of the enclosing function
+    that is not bound yet when the call is made (Python never reaches it), and private attributes in a class body
+    (mangled by the compiler). A violated condition that Python evaluates without an error surfaces as the violation."""
+    import icontract
+
+    def outcome(fn):
+        try:
+            r = fn()
+            return ("ret", r)
+        except icontract.ViolationError as e:
+            return ("violation", str(e))
+        except BaseException as e:  # noqa
+            return ("exc", type(e).__name__, str(e)[:160], repr(e.__cause__)[:120])
+
+    cells = []
+    for role in ("require", "ensure"):
+        for is_async in (False, True):
+            cells.append(("late-bound closure variable/%s%s" % (role, "/async" if is_async else ""), ("late", role, is_async)))
+    for name in ("pay/closed", "pay/over-limit", "quote", "apay/closed", "inner"):
+        cells.append(("private attribute/%s" % name, ("private", name)))
+    for label, spec in cells:
+        if only and only != label:
+            continue
+        res = "" if spec[0] != "late" or spec[1] == "require" else ", result"
+        with RD.Module(SCOPE_SRC.replace("{res}", "")) as mod_pre, RD.Module(SCOPE_SRC.replace("{res}", ", result")) as mod_post:
+            want_lines = None
+            if spec[0] == "late":
+                mod = mod_pre if spec[1] == "require" else mod_post
+                f, bind = mod.mod.make_late(getattr(icontract, spec[1]), spec[2])
+                call = (lambda: RUN_drive(f(-1))) if spec[2] else (lambda: f(-1))
+                got = outcome(call)
+                want_text = "x > 0 and late(x)"
+            else:
+                A = mod_pre.mod.Account
+                fn, want_text = {
+                    "pay/closed": (lambda: A(False, 10).pay(1), "self.__open and x < self.__limit"),
+                    "pay/over-limit": (lambda: A(True, 10).pay(50), "self.__open and x < self.__limit"),
+                    "quote": (lambda: A(True, 10).quote(50), "result < self.__limit and self.__open"),
+                    "apay/closed": (lambda: RUN_drive(A(False, 10).apay(1)), "self.__open and x < self.__limit"),
+                    "inner": (lambda: A.Inner(-1).m(), "self.__n > 0")}[spec[1]]
+                got = outcome(fn)
+                if spec[1] == "pay/over-limit":
+                    want_lines = ["self.__limit was 10", "self.__open was True", "x was 50"]
+        ctx.case(["scope", label], True, sample={"directed": label, "outcome": list(got)[:2]})
+        ctx.count("directed:scope-cases")
+        if got[0] != "violation":
+            ctx.fail("scope|%s|%s" % (label.split("/")[0], got[1] if got[0] == "exc" else got[0]), {"scope_case": label},
+                     "%s: Python evaluates the condition `%s` to False without an error, so the caller must get the "
+                     "ViolationError; got %r" % (label, want_text, got))
+        elif want_text not in got[1] or any(l not in got[1] for l in (want_lines or [])):
+            ctx.fail("scope|%s|message" % label.split("/")[0], {"scope_case": label},
+                     "%s: the message must show the condition `%s`%s; got:\n%s" % (
+                         label, want_text, " and the lines %r" % want_lines if want_lines else "", got[1]))
+
+
+def RUN_drive(coro):
+    try:
+        coro.send(None)
+    except StopIteration as e:
+        return e.value
+    coro.close()
+    raise core.HarnessError("the coroutine suspended although nothing awaits")
+
+
 def replay(ctx, case):
+    if case.get("scope_case"):
+        before = ctx.evaluations
+        scope_cases(ctx, only=case["scope_case"])
+        ctx.evaluations = before + 1
+        return
     check_case(ctx, case)
